@@ -46,11 +46,11 @@ def decode_op(t):
 
 
 def strategy():
-    op = st.tuples(st.integers(0, 9), st.integers(0, 6 * 16 ** 3 - 1)).map(decode_op)
+    op = st.tuples(st.integers(0, 9), worldops.packed(6 * 16 ** 3)).map(decode_op)
     return st.fixed_dictionaries({
         'n2': st.integers(1, 3), 'n3': st.integers(1, 3),
         'ctor': st.lists(st.integers(0, 16 ** 3 * 2 - 1), min_size=6, max_size=6),
-        'listeners': st.lists(st.integers(1, 7 * 64 * 3 * 2 - 1).map(
+        'listeners': st.lists(worldops.packed(7 * 64 * 3 * 2).map(
             lambda p: {'events': p % 7 + 1, 'on': p // 7 % 64 or 1, 'reactive': p // 448 % 3 == 2,
                        'renamed': p // 1344 == 1}),
                               min_size=1, max_size=4),
